@@ -36,6 +36,8 @@ def cargo_env(extra=None):
     env = dict(os.environ)
     env["CARGO_NET_OFFLINE"] = "true"
     env["RUSTFLAGS"] = CFG_FLAG
+    # the stage-2 crates are regenerated on every run: incremental caches only pile up (80 GB after a day of runs)
+    env["CARGO_INCREMENTAL"] = "0"
     env.pop("RUSTC_WRAPPER", None)
     env.pop("TYPIFY_VERIF_LOG", None)
     if extra:
